@@ -4,14 +4,14 @@ package c04
 import (
 	"context"
 	"fmt"
-	"runtime"
-	"time"
 	"net/http"
 	"net/http/httptest"
+	"runtime"
 	"strings"
 	"sync"
 	"sync/atomic"
 	"testing"
+	"time"
 
 	"github.com/anishathalye/porcupine"
 	"github.com/vulcand/oxy/v2/connlimit"
